@@ -48,6 +48,10 @@ func main() {
 		sshServerMain()
 		return
 	}
+	if prop == "tqreal" {
+		tqRealChildMain(os.Args[2], os.Args[3])
+		return
+	}
 	if prop == "tqchild" {
 		tqChildMain(os.Args[2])
 		return
